@@ -131,9 +131,9 @@ def rootShape : Kind → Shape
 
 /-- clip flag of each `clone()` as read from the source by tools/extract -/
 def codeClips : Kind → Bool
-  | .json => Generated.jsonCloneClips
-  | .text => Generated.textCloneClips
-  | .nano => Generated.nanoCloneClips
+  | .json => Generated.LoggerClone.jsonCloneClips
+  | .text => Generated.LoggerClone.textCloneClips
+  | .nano => Generated.LoggerClone.nanoCloneClips
 
 structure Handler where
   pre : Slice
